@@ -54,7 +54,7 @@ func pkixPublicKeyAttributes(k asn1struct.PKIXPublicKey) []Attribute {
 			attrs = append(attrs, dsaParameterAttributes(p)...)
 		}
 
-	case k.Algorithm.Algorithm.Equal(oid.RSAEncryption):
+	case k.Algorithm.Algorithm.Equal(oid.RSAEncryption), k.Algorithm.Algorithm.Equal(oid.RSASSAPSS):
 		var pk asn1struct.PKCS1PublicKey
 		_, err := asn1.Unmarshal(k.PublicKey.Bytes, &pk)
 		if err == nil {
